@@ -31,7 +31,12 @@ RULE = (
     "shallow or expanding, plus absent ids), index build+md5+save of a nested tree, migrate between "
     "any two stores (same or different algorithm, non-empty destination). Every choice comes from "
     "ctx.rng; the ids of a transfer are drawn from the real source store at that point of the history. "
-    "A case is non-trivial when at least three of its steps changed a store."
+    "A case is non-trivial when at least three of its steps changed a store. "
+    "Every fourth history shares ONE real hash-state cache (State) between a legacy md5-dos2unix and an md5 store "
+    "(plus maybe a third) and keeps its workspaces, half of its stage/save operations re-use an earlier unchanged "
+    "workspace in another store (warm cache, other algorithm, both orders). Histories also reopen a store directory "
+    "under the other class (generic <-> local) and then re-add / re-stage / transfer ids that are already present. "
+    "Every fifth StateNoop history ends in one operation that breaks WfOp (malformed stream)."
 )
 ASSUMPTIONS = [
     "WfOp: ids handed to odb.add by callers outside dvc-data are truthful; transfer is used between stores of one "
@@ -42,7 +47,12 @@ ASSUMPTIONS = [
     "content (chunking is C14); umask 022; no upload faults, no remote index, verify=False (C04/C11/C07)",
     "environment observed and handed to the model as explicit arguments: order of the workspace walk, order of the "
     "index iteration, order in which migrate.prepare returns the re-hashed objects, whether the file system hard-links",
-    "the state cache is StateNoop in the harness (C13 covers a real state database)",
+    "the model is cache-free; in the shared-State histories the real State must make no observable difference (its "
+    "soundness is checked here by correspondence + re-hash oracle, its own invariant is C13)",
+    "leftovers: objects that sit unprotected in a directory when it is reopened under the local class may stay "
+    "unprotected until an operation of the history adds or covers them (the oracle tracks that set with hashlib only)",
+    "held back pending the lead's decision: migrate between two stores of ONE algorithm sharing a real State "
+    "(PROBE_SAME_ALG_MIGRATE_WITH_STATE) - it doubles the '.dir' suffix of directory objects",
 ]
 
 IMPORTS = "From Coq Require Import NArith List.\nFrom DvcData Require Import Model.Listing Model.StoreOps."
@@ -52,6 +62,11 @@ MODEL = "fun i => run_history (fst i) (snd i)"
 ALGS = ["md5", "md5-dos2unix", "sha256"]
 ALG_CTOR = {"md5": "Md5", "md5-dos2unix": "Md5D2U", "sha256": "Sha256"}
 CLS_CTOR = {"local": "Local", "base": "Base"}
+# migrate between two stores of ONE algorithm that share a real State doubles the '.dir' suffix (reported to the
+# lead as a suspected genuine defect; see the module's report).  Until it is decided the generator holds such
+# migrations back in shared-State histories; set to True to generate them.
+PROBE_SAME_ALG_MIGRATE_WITH_STATE = False
+use_state = [False]  # whether the history being generated shares a real State (read by gen_op)
 
 CONTENTS = [b"", b"A", b"B", b"x\r\ny\r\n", b"x\ny\n", b"\x00bin\r\n", "é".encode(), b"\r\n", b"a\rb",
             b"\x01\x02\x03\r\n\x04\x05", b"tab\there\r\n",
@@ -97,8 +112,9 @@ def stray_files(root):
     return out
 
 
-def audit(cfg, snaps, roots=()):
-    """the property itself on the observed stores: [(signature, what)]"""
+def audit(cfg, snaps, roots=(), loose=None):
+    """the property itself on the observed stores: [(signature, what)].  loose[si]: ids that sat unprotected in
+    the directory when it was (re)opened under the local class and that no operation has added or covered since"""
     out = []
     for si, r in enumerate(roots):
         bad = stray_files(r)
@@ -121,8 +137,9 @@ def audit(cfg, snaps, roots=()):
             elif digest(alg, data) != oid:
                 out.append(("C01:misnamed-file", f"store {si} ({cls},{alg}): object {oid} holds bytes whose {alg} "
                             f"digest is {digest(alg, data)}"))
-            if cls == "local" and mode != 0o444:
-                out.append(("C01:unprotected", f"store {si} (local): object {oid} has mode {oct(mode)}"))
+            if cls == "local" and mode != 0o444 and oid not in (loose[si] if loose else ()):
+                out.append(("C01:unprotected", f"store {si} (local): object {oid} has mode {oct(mode)} although an "
+                            "operation of the history added or covered it"))
     return out
 
 
@@ -189,11 +206,21 @@ def gen_nonwf(rng, cfg, snaps):
     return None
 
 
-def gen_op(rng, cfg, snaps):
+def gen_op(rng, cfg, snaps, prev_ws=()):
     """one operation, chosen against the current real stores"""
     n = len(cfg)
     for _ in range(20):
-        kind = rng.choice(["stage"] * 6 + ["upload"] * 2 + ["add"] * 2 + ["transfer"] * 5 + ["save"] * 4 + ["migrate"] * 3)
+        kind = rng.choice(["stage"] * 6 + ["upload"] * 2 + ["add"] * 3 + ["transfer"] * 5 + ["save"] * 4 + ["migrate"] * 3
+                          + ["reopen"] * 2)
+        if kind == "reopen":
+            si = rng.randrange(n)
+            return {"op": "reopen", "store": si, "cls": "base" if cfg[si][0] == "local" else "local"}
+        if prev_ws and kind in ("stage", "save") and rng.random() < 0.5:
+            # the same unchanged workspace again (a warm hash-state cache), into any store
+            w = rng.choice(prev_ws)
+            si = rng.randrange(n)
+            if not (cfg[si][1] == "sha256" and (kind == "stage" or any("/" in k for k in w["tree"]))):
+                return {"op": kind, "store": si, "tree": w["tree"], "ws": w["ws"]}
         si = rng.randrange(n)
         if kind == "upload" and rng.random() < 0.75:
             md5s = [j for j in range(n) if cfg[j][1] == "md5"]
@@ -209,7 +236,7 @@ def gen_op(rng, cfg, snaps):
                 return {"op": kind, "store": si, "tree": {}}
             return {"op": kind, "store": si, "tree": {k: hx(v) for k, v in gen_tree(rng).items()}}
         if kind == "add":
-            if rng.random() < 0.3 and snaps[si]:
+            if rng.random() < 0.45 and snaps[si]:
                 oid = rng.choice(sorted(snaps[si]))
                 return {"op": "add", "store": si, "data": hx(snaps[si][oid][0]), "oid": oid}
             if rng.random() < 0.3:
@@ -249,6 +276,8 @@ def gen_op(rng, cfg, snaps):
             dst = rng.randrange(n)
             if dst == si and rng.random() < 0.8:
                 continue
+            if prev_ws is not None and cfg[dst][1] == alg and not PROBE_SAME_ALG_MIGRATE_WITH_STATE and use_state[0]:
+                continue
             return {"op": "migrate", "src": si, "dst": dst}
     return {"op": "stage", "store": 0, "file": hx(b"A")}
 
@@ -261,7 +290,7 @@ def ckey(parts) -> str:
     return clist([cbytes(p) for p in parts])
 
 
-def run_op(ctx, op, cfg, odbs, roots, ws_root, step):
+def run_op(ctx, op, cfg, odbs, roots, ws_root, step, state=None, keep_ws=False):
     """executes one operation on the real stores; returns (code, coq op term, op-specific oracle problems)"""
     extra = []
     from dvc_objects.fs.local import localfs
@@ -276,7 +305,8 @@ def run_op(ctx, op, cfg, odbs, roots, ws_root, step):
 
     kind = op["op"]
     code = 0
-    ws = os.path.join(ws_root, f"ws{step}")
+    ws = os.path.join(ws_root, "ws%d" % op.get("ws", step))
+    reuse = "ws" in op and os.path.isdir(ws)
     if kind in ("stage", "upload"):
         si = op["store"]
         odb, alg = odbs[si], cfg[si][1]
@@ -287,7 +317,8 @@ def run_op(ctx, op, cfg, odbs, roots, ws_root, step):
             work = ctor("WFile", cbytes(data))
         else:
             tree = {k: bytes.fromhex(v) for k, v in op["tree"].items()}
-            impl.mk_tree(ws, tree)
+            if not reuse:
+                impl.mk_tree(ws, tree)
             path = ws
             # the order in which build's walk yields the files (environment, observed)
             order = []
@@ -324,10 +355,11 @@ def run_op(ctx, op, cfg, odbs, roots, ws_root, step):
         si = op["store"]
         alg = cfg[si][1]
         tree = {k: bytes.fromhex(v) for k, v in op["tree"].items()}
-        impl.mk_tree(ws, tree)
+        if not reuse:
+            impl.mk_tree(ws, tree)
         dirs, files = [], []
         try:
-            idx = imd5(ibuild(ws, localfs), name=alg)
+            idx = imd5(ibuild(ws, localfs), state=state, name=alg)
             for key, entry in idx.iteritems():  # the order save() will see (environment, observed)
                 if entry.meta and entry.meta.isdir:
                     dirs.append(key)
@@ -371,57 +403,124 @@ def run_op(ctx, op, cfg, odbs, roots, ws_root, step):
         if not hard:
             ctx.count("env:migrate-without-hardlink")
         term = ctor("OMigrate", str(src), str(dst), clist([cbytes(o) for o in order]), cbool(hard))
+    elif kind == "reopen":
+        si = op["store"]
+        kw = {"state": state} if state is not None else {}
+        odbs[si] = impl.make_odb(op["cls"], roots[si], hash_name=cfg[si][1], **kw)
+        cfg[si][0] = op["cls"]
+        term = ctor("OReopen", str(si), CLS_CTOR[op["cls"]])
     else:
         raise ValueError(kind)
-    impl.rm_rf(ws)
+    if not keep_ws:
+        impl.rm_rf(ws)
     return code, term, extra
 
 
 def delta_val(prev, nxt):
     ch = [(o, v) for o, v in sorted(nxt.items(), key=lambda kv: tuple(ord(c) for c in kv[0])) if prev.get(o) != v]
-    return vL([vN(len(nxt)), vL([vL([vB(o), vB(v[0]), vN(v[1])]) for o, v in ch])])
+    gone = sorted((o for o in prev if o not in nxt), key=lambda o: tuple(ord(c) for c in o))
+    return vL([vN(len(nxt)), vL([vL([vB(o), vB(v[0]), vN(v[1])]) for o, v in ch]), vL([vB(o) for o in gone])])
 
 
-def run_history(ctx, cfg, ops=None, nsteps=0, malformed=False):
+def covered(op, code, cfg, before, after):
+    """ids of the destination store that this operation added or covered (computed with hashlib only): the ones
+    `add` was asked for (copied or already there) and the ones a status query on a local store verified"""
+    if code != 0:
+        return None, set()
+    kind = op["op"]
+    if kind == "add":
+        return op["store"], {op["oid"]}
+    if kind in ("stage", "upload", "save"):
+        si = op["store"]
+        alg = cfg[si][1]
+        if "file" in op:
+            return si, {digest(alg, bytes.fromhex(op["file"]))}
+        tree = {k: bytes.fromhex(v) for k, v in op["tree"].items()}
+        out = {digest(alg, v) for v in tree.values()}
+        key = "sha256" if alg == "sha256" else "md5"
+        prefixes = {""} if kind != "save" else {k[:i + 1] for k in tree for i, c in enumerate(k) if c == "/"}
+        for pre in prefixes:
+            lst = sorted(({key: digest(alg, v), "relpath": k[len(pre):]} for k, v in tree.items() if k.startswith(pre)),
+                         key=lambda d: d["relpath"])
+            out.add(hashlib.md5(json.dumps(lst, sort_keys=True).encode()).hexdigest() + ".dir")  # noqa: S324
+        return si, out
+    if kind == "transfer" and op["src"] != op["dst"]:
+        return op["dst"], set(op["ids"])
+    if kind == "migrate":
+        dalg = cfg[op["dst"]][1]
+        return op["dst"], {digest(dalg, d) + (".dir" if o.endswith(".dir") else "") for o, (d, _m) in before[op["src"]].items()}
+    return None, set()
+
+
+def run_history(ctx, cfg, ops=None, nsteps=0, malformed=False, shared_state=False):
     """runs a history (given, or generated step by step) on fresh real stores.
+    shared_state: all stores of the history share one real hash-state cache (State) and workspaces stay, so that
+    re-staging an unchanged workspace meets a warm cache.
     returns (case, input term, expected val, problems [(sig, what, step)], changed steps)"""
+    cfg0 = [list(c) for c in cfg]
+    cfg = [list(c) for c in cfg]  # the class of a store changes when it is reopened
     root = ctx.fresh("c01")
     roots = [os.path.join(root, f"store{i}") for i in range(len(cfg))]
-    odbs = [impl.make_odb(cls, roots[i], hash_name=alg) for i, (cls, alg) in enumerate(cfg)]
+    state = None
+    if shared_state:
+        from dvc_data.hashfile.state import State
+
+        state = State(root_dir=root, tmp_dir=os.path.join(root, "state-tmp"))
+    kw = {"state": state} if state is not None else {}
+    odbs = [impl.make_odb(cls, roots[i], hash_name=alg, **kw) for i, (cls, alg) in enumerate(cfg)]
     for r in roots:
         os.makedirs(r, exist_ok=True)
     snaps = [dict() for _ in cfg]
+    loose = [set() for _ in cfg]
     done, terms, exp, problems = [], [], [], []
+    prev_ws = []
     changed = 0
     kinds = set()
     total = len(ops) if ops is not None else nsteps
-    for step in range(total + (1 if malformed else 0)):
-        if step == total:
-            op = gen_nonwf(ctx.rng, cfg, snaps)
-            if op is None:
+    use_state[0] = shared_state
+    try:
+        for step in range(total + (1 if malformed else 0)):
+            if step == total:
+                op = gen_nonwf(ctx.rng, cfg, snaps)
+                if op is None:
+                    break
+            else:
+                op = ops[step] if ops is not None else gen_op(ctx.rng, cfg, snaps, prev_ws if shared_state else ())
+            code, term, extra = run_op(ctx, op, cfg, odbs, roots, root, step, state, keep_ws=shared_state)
+            new = [impl.walk_store(r) for r in roots]
+            wf = 0 if op.get("nonwf") else 1  # Coq's wf_op_b must agree: the generator keeps WfOp unless it says otherwise
+            exp.append(vL([vN(code), vN(wf), vL([delta_val(p, n) for p, n in zip(snaps, new)])]))
+            if new != snaps:
+                changed += 1
+                kinds.add(op["op"])
+            # leftovers: what sits unprotected in a directory when it is opened under the local class may stay so
+            # until an operation adds or covers it
+            if op["op"] == "reopen":
+                si = op["store"]
+                loose[si] = {o for o, (_d, m) in new[si].items() if m != 0o444} if op["cls"] == "local" else set()
+            ci, ids = covered(op, code, cfg, snaps, new)
+            if ci is not None:
+                loose[ci] -= ids
+            if op["op"] in ("stage", "save") and "tree" in op and "ws" not in op:
+                prev_ws.append({"tree": op["tree"], "ws": step})
+            snaps = new
+            done.append(op)
+            terms.append(term)
+            ctx.count("op:" + op["op"] + ("" if code == 0 else f":err{code}"))
+            if op.get("nonwf"):
+                ctx.count("nonwf:violates" if audit(cfg, snaps, roots) else "nonwf:harmless")
+                break  # the caller broke the contract: nothing is claimed about what follows
+            bad = extra + audit(cfg, snaps, roots, loose)
+            if bad:
+                problems = [(s, w, step) for s, w in bad]
                 break
-        else:
-            op = ops[step] if ops is not None else gen_op(ctx.rng, cfg, snaps)
-        code, term, extra = run_op(ctx, op, cfg, odbs, roots, root, step)
-        new = [impl.walk_store(r) for r in roots]
-        wf = 0 if op.get("nonwf") else 1  # Coq's wf_op_b must agree: the generator keeps WfOp unless it says otherwise
-        exp.append(vL([vN(code), vN(wf), vL([delta_val(p, n) for p, n in zip(snaps, new)])]))
-        if new != snaps:
-            changed += 1
-            kinds.add(op["op"])
-        snaps = new
-        done.append(op)
-        terms.append(term)
-        ctx.count("op:" + op["op"] + ("" if code == 0 else f":err{code}"))
-        if op.get("nonwf"):
-            ctx.count("nonwf:violates" if audit(cfg, snaps, roots) else "nonwf:harmless")
-            break  # the caller broke the contract: nothing is claimed about what follows
-        bad = extra + audit(cfg, snaps, roots)
-        if bad:
-            problems = [(s, w, step) for s, w in bad]
-            break
-    case = {"stores": cfg, "ops": done}
-    inp = cpair(clist([cpair(CLS_CTOR[c], ALG_CTOR[a]) for c, a in cfg]), clist(terms))
+    finally:
+        if state is not None:
+            state.close()
+    case = {"stores": cfg0, "ops": done}
+    if shared_state:
+        case["state"] = True
+    inp = cpair(clist([cpair(CLS_CTOR[c], ALG_CTOR[a]) for c, a in cfg0]), clist(terms))
     impl.rm_rf(root)
     return case, inp, vL(exp), problems, changed, kinds
 
@@ -440,6 +539,25 @@ CORPUS = [
              {"op": "add", "store": 2, "data": hx(b"A"), "oid": hashlib.md5(b"A").hexdigest()},  # noqa: S324
              {"op": "migrate", "src": 2, "dst": 1},
              {"op": "stage", "store": 1, "tree": {}}]},
+    # one hash-state cache shared by a legacy and an md5 store; the same unchanged workspace staged under both
+    # algorithms, in both orders (a cached digest of the other algorithm must not be taken)
+    {"stores": [["local", "md5-dos2unix"], ["local", "md5"], ["base", "md5-dos2unix"]], "state": True,
+     "ops": [{"op": "stage", "store": 0, "tree": {"w": hx(b"x\r\ny\r\n"), "s/u": hx(b"x\ny\n"), "s/b": hx(b"\x00bin\r\n")}},
+             {"op": "stage", "store": 1, "tree": {"w": hx(b"x\r\ny\r\n"), "s/u": hx(b"x\ny\n"), "s/b": hx(b"\x00bin\r\n")}, "ws": 0},
+             {"op": "save", "store": 1, "tree": {"p/q": hx(b"a\r\nb\r\n"), "r": hx(b"\r\n")}},
+             {"op": "save", "store": 2, "tree": {"p/q": hx(b"a\r\nb\r\n"), "r": hx(b"\r\n")}, "ws": 2},
+             {"op": "stage", "store": 0, "tree": {"p/q": hx(b"a\r\nb\r\n"), "r": hx(b"\r\n")}, "ws": 2}]},
+    # a directory filled through the generic class, reopened under the local class: leftovers stay until an add
+    # covers them - then they must be read-only (add protects every oid it is asked for, copied or present)
+    {"stores": [["base", "md5"], ["local", "md5"]],
+     "ops": [{"op": "stage", "store": 0, "tree": {"a": hx(b"A"), "d/b": hx(b"B")}},
+             {"op": "reopen", "store": 0, "cls": "local"},
+             {"op": "add", "store": 0, "data": hx(b"A"), "oid": hashlib.md5(b"A").hexdigest()},  # noqa: S324
+             {"op": "save", "store": 0, "tree": {"d/b": hx(b"B")}},
+             {"op": "transfer", "src": 1, "dst": 0, "ids": [hashlib.md5(b"A").hexdigest()], "shallow": True},  # noqa: S324
+             {"op": "stage", "store": 0, "tree": {"a": hx(b"A"), "d/b": hx(b"B")}},
+             {"op": "reopen", "store": 0, "cls": "base"},
+             {"op": "migrate", "src": 0, "dst": 1}]},
 ]
 
 
@@ -447,28 +565,39 @@ def run(ctx):
     items = []
     ncases = ctx.n(80, 500)
     maxlen = 8 if ctx.tier == "quick" else 20
-    todo = [(c["stores"], c["ops"]) for c in CORPUS]
+    todo = [(c["stores"], c["ops"], bool(c.get("state"))) for c in CORPUS]
     cdir = os.path.join(os.path.dirname(os.path.dirname(os.path.dirname(os.path.abspath(__file__)))), "corpus", "C01")
     if os.path.isdir(cdir):
         for fn in sorted(os.listdir(cdir)):
             if fn.endswith(".json"):
                 with open(os.path.join(cdir, fn)) as f:
                     c = json.load(f)
-                todo.append((c["stores"], c["ops"]))
+                todo.append((c["stores"], c["ops"], bool(c.get("state"))))
     for i in range(ncases):
-        todo.append((gen_cfg(ctx.rng), None))
+        if i % 4 == 3:
+            # shared real State: at least one legacy and one md5 store
+            cfg = [[ctx.rng.choice(["local", "base"]), a] for a in ctx.rng.sample(["md5", "md5-dos2unix"], 2)]
+            if ctx.rng.random() < 0.6:
+                cfg.append([ctx.rng.choice(["local", "base"]), ctx.rng.choice(ALGS)])
+            todo.append((cfg, None, True))
+        else:
+            todo.append((gen_cfg(ctx.rng), None, False))
     steps = 0
     mal_items = []
-    for ci, (cfg, ops) in enumerate(todo):
+    for ci, (cfg, ops, shared) in enumerate(todo):
         nsteps = ctx.rng.randint(3, maxlen) if ops is None else 0
-        malformed = ops is None and ci % 5 == 4
-        case, inp, exp, problems, changed, kinds = run_history(ctx, cfg, ops, nsteps, malformed)
+        # (no malformed tail with a shared State: after an untruthful add the cache vouches for the wrong name, the
+        #  cache-free model is only claimed for WfOp histories)
+        malformed = ops is None and ci % 5 == 4 and not shared
+        case, inp, exp, problems, changed, kinds = run_history(ctx, cfg, ops, nsteps, malformed, shared)
+        if shared:
+            ctx.count("stream:shared-state")
         if malformed and case["ops"] and case["ops"][-1].get("nonwf"):
             steps += len(case["ops"])
             ctx.case(case, True)
             ctx.count("stream:malformed")
             for sig, what, step in problems:
-                ctx.oracle_fail(sig, f"after step {step}: {what}", {"stores": cfg, "ops": case["ops"][:step + 1]})
+                ctx.oracle_fail(sig, f"after step {step}: {what}", {**case, "ops": case["ops"][:step + 1]})
             if not problems:
                 mal_items.append((case, inp, exp))
             continue
@@ -478,7 +607,7 @@ def run(ctx):
         for c, a in cfg:
             ctx.count(f"store:{c}/{a}")
         for sig, what, step in problems:
-            ctx.oracle_fail(sig, f"after step {step}: {what}", {"stores": cfg, "ops": case["ops"][:step + 1]})
+            ctx.oracle_fail(sig, f"after step {step}: {what}", {**case, "ops": case["ops"][:step + 1]})
         if not problems:
             items.append((case, inp, exp))
     ctx.obligation("oracle:rehash-every-object-after-every-step",
@@ -492,5 +621,6 @@ def run(ctx):
 
 
 def replay_case(ctx, case):
-    c, inp, exp, problems, changed, kinds = run_history(ctx, case["stores"], case["ops"], 0)
+    c, inp, exp, problems, changed, kinds = run_history(ctx, case["stores"], case["ops"], 0, False,
+                                                        bool(case.get("state")))
     return {"problems": problems, "violates": bool(problems), "steps_run": len(c["ops"])}
